@@ -99,6 +99,7 @@ type Gen struct {
 	frames   *FrameInfo
 	macroDepth int
 	preDecl    map[string]bool // symbols declared by the spec prelude
+	forbid     []Forbid
 }
 
 type FrameInfo struct {
@@ -387,8 +388,14 @@ func (g *Gen) ghostHeap(name string) (string, Sort, types.Type) {
 	return n, s, t
 }
 
+// arrHeap: arrays are separated by their exact element type ([]AddrHeader and []string are not
+// convertible into each other, so they cannot share storage); byte and uint8 are one type.
 func (g *Gen) arrHeap(elem types.Type) string {
-	n := "A." + underKey(elem)
+	k := typeKey(elem)
+	if b, ok := types.Unalias(elem).(*types.Basic); ok && b.Kind() == types.Uint8 {
+		k = "byte"
+	}
+	n := "A." + k
 	g.heapDecl(n, arrSortSig(sortOf(elem)))
 	return n
 }
